@@ -81,7 +81,7 @@ def gen_norm(rng, n, tier="quick"):
         by_name = z.iana is not None and rng.random() < 0.5
         tzarg = z.iana if by_name else z.tzinfo
         tz_tok = ("Zname:%d" if by_name else "Zobj:%d") % z.id
-        k = i % 13
+        k = i % 14
         if k in (0, 1, 2, 3) and z.iana is not None and rng.random() < 0.3 and not isinstance(o.elevation, tuple):
             # slide the observer along the parallel until this very event reads about 00:00 in the
             # (named) zone: the date re-matching then runs with the zone in whatever form it was
@@ -204,6 +204,22 @@ def gen_norm(rng, n, tier="quick"):
                 exp = E(v)
             yield Case("night" if is_night else "daylight", "pub_daynight %s %s %s %s %s" % (
                 B(is_night), obs_tok(o), dtok, tz_tok, I(instant_us(now))), exp, descr)
+        elif k == 13:
+            # moon angles with the instant omitted (now, UTC) and the phase with the date omitted
+            which = rng.choice(["azimuth", "elevation", "zenith", "phase"])
+            descr.update({"function": "moon." + which, "instant": "omitted"})
+            with FrozenClock(now):
+                if which == "phase":
+                    st, v = call(moon.phase)
+                else:
+                    st, v = call(getattr(moon, which), o)
+            from common import FS as _FS2
+            if which == "phase":
+                req = "phase %s" % I(now.date().toordinal())
+            else:
+                req = "moon_%s %s %s %s" % (which, F(o.latitude), F(o.longitude),
+                                            I(wall_us(now.replace(tzinfo=None))))
+            yield Case("moon." + which, req, (_FS2(v) if st == "ok" else E(v)), descr)
         elif k == 11:
             # solar angles with the instant omitted: "now", read from the clock as UTC; the
             # refraction switch must still be honoured
